@@ -928,8 +928,17 @@ func clearDetector() {
 		return
 	}
 
+	// The detector turns every message into session details before it looks at the operation
+	// (src/sessions.rs, pubsub_handle_s2d) and drops messages whose protocol is unset or whose
+	// addresses do not parse. A clear request concerns no particular session, so it carries
+	// placeholder values that pass that step; the detector's handling of Clear ignores them.
 	op := pb.StationOperations_Clear
+	placeholderAddr := net.IPv4zero.String()
+	placeholderProto := pb.IPProto_Tcp
 	msg := &pb.StationToDetector{
+		PhantomIp: &placeholderAddr,
+		ClientIp:  &placeholderAddr,
+		Proto:     &placeholderProto,
 		Operation: &op,
 	}
 
